@@ -177,8 +177,6 @@ func runCheck(repo, verif, prop, tier, keep string, claim bool) int {
 	runs := make([]*funcRun, len(ps.Funcs))
 	var wg sync.WaitGroup
 	sem := make(chan struct{}, 12)
-	var encMu sync.Mutex // go/types and the SSA program are read-only here, but Enc shares World maps for spec lookup only
-	_ = encMu
 	for i, short := range ps.Funcs {
 		runs[i] = &funcRun{short: short}
 		keys := w.matchFuncs(short)
